@@ -114,10 +114,17 @@ CATEGORY_NODES = {
 def verifier_with_house_rule(rng, fcp):
     """The general verifier plus checks registered through the public API (fcp.verifier.register): some that always pass and,
     at a random position of a random category, one that rejects the m-th node it is shown.  Returns (verifier, label, fires)."""
-    from fcp.verifier import make_general_verifier, register
+    from fcp.verifier import make_general_verifier, register, Verifier
     from fcp.error import error
     from fcp.result import Ok
-    v = make_general_verifier()
+    # in a third of the cases the caller hands the manager a verifier of its own that holds no check yet and registers its rules on that
+    # object afterwards (the plug-ins register theirs as late as inside generate()): it is the caller's object that must gate generation
+    late = rng.random() < 0.33
+    v = Verifier() if late else make_general_verifier()
+    pending = []
+    if late:
+        def register(verifier, category, _pending=pending):            # noqa: F811 - deferred registration, same API shape
+            return lambda fn: _pending.append((category, fn)) or fn
     cat = rng.choice(sorted(CATEGORY_NODES))
     count = CATEGORY_NODES[cat](fcp)
     m = rng.randrange(count) if count else 0
@@ -142,10 +149,16 @@ def verifier_with_house_rule(rng, fcp):
     register(v, cat)(rule(m))
     for _ in range(after):
         register(v, cat)(rule(None))
-    return v, f"house-rule:{cat}:position{position}:node{m}", count > 0
+    def register_late():
+        from fcp.verifier import register as real_register
+        for c, fn in pending:
+            real_register(v, c)(fn)
+    if late:
+        position = "late"
+    return v, f"house-rule:{cat}:position{position}:node{m}", count > 0, (register_late if late else None)
 
 
-def run_generate(name, fcp, out_dir, verifier=None, warmup=None):
+def run_generate(name, fcp, out_dir, verifier=None, warmup=None, after_construction=None):
     """warmup = (generator name, scratch directory): the same manager first generates, from the same parsed schema, with a plug-in that
     registers no checks of its own (nop, cpp); what it found acceptable then must not decide the later, stricter generation."""
     from fcp.codegen import GeneratorManager
@@ -153,7 +166,9 @@ def run_generate(name, fcp, out_dir, verifier=None, warmup=None):
     import contextlib, io
     with Capture(name) as cap, contextlib.redirect_stdout(io.StringIO()):
         try:
-            manager = GeneratorManager(verifier or make_general_verifier())
+            manager = GeneratorManager(verifier if verifier is not None else make_general_verifier())
+            if after_construction is not None:
+                after_construction()
             if warmup is not None:
                 try:
                     manager.generate(warmup[0], None, None, fcp, warmup[1])
@@ -178,7 +193,7 @@ def run(chk):
         "schemas from the fixed profile with CAN impls, parsed by the real front end, then one fault injected into the tree (duplicate type/field/"
         "enumerator/impl, empty struct, unknown bound type, duplicate CAN id, missing service, oversize; first/middle/last position) or none, "
         "or - with no fault in the tree - a rejecting check registered through fcp.verifier.register in a random category at a random position "
-        "among passing ones, rejecting a random node; "
+        "among passing ones, rejecting a random node (in a third of these the verifier handed to the manager is the caller's own, still empty, and the rules are registered on it after the manager was built); "
         "GeneratorManager(make_general_verifier()).generate run for dbc, can_c, cpp, nop (in a third of the dbc/can_c runs after the same manager generated with nop or cpp from the same parsed schema) on a pre-populated output directory (user files, and stale files of up to 200 kB at the output paths); result and the "
         "directory before/after (names, contents, mtimes) observed; non-trivial = a fault was injected or files were written")
     cases, meta, fails = [], [], []
@@ -235,7 +250,7 @@ def run(chk):
                 warm = (chk.rng.choice(["nop", "cpp"]), os.path.join(work, f"w{k}"))
                 os.makedirs(warm[1])
                 chk.hist("warmup", warm[0])
-            res, cap = run_generate(name, fcp, out, house[0] if house else None, warmup=warm)
+            res, cap = run_generate(name, fcp, out, house[0] if house else None, warmup=warm, after_construction=house[3] if house else None)
             if warm is not None:
                 shutil.rmtree(warm[1], ignore_errors=True)
             after = snapshot(out)
